@@ -172,6 +172,14 @@ class Option(Evaluatable[A]):
 
         return value
 
+    def _exists(self, options: Options) -> bool:
+        try:
+            return dotted_key_exists(self.key, options)
+        except TypeError as e:
+            # A non-section value sits at a prefix of the key: evaluate() cannot get
+            # past it either (not even to the default)
+            raise KeyNotFoundError(self.key, self) from e
+
     def validate(self, options: Options) -> None:
         """Validates that the key exists in the options dictionary.
 
@@ -179,7 +187,7 @@ class Option(Evaluatable[A]):
         default key is an Evaluatable, it is validated using the options
         dictionary. If the default key is not an Evaluatable, it is ignored.
         """
-        if dotted_key_exists(self.key, options):
+        if self._exists(options):
             _ = self.evaluate(options)
         elif self.default is not MISSING:
             self.default.validate(options)
@@ -196,7 +204,7 @@ class Option(Evaluatable[A]):
         if the default value is an Evaluatable, the keys required by the
         Evaluatable are also returned.
         """
-        if dotted_key_exists(self.key, options):
+        if self._exists(options):
             value = get_dotted_key(self.key, options)
             keys = {self.key} | _templated_keys(value, options, explain=False)
         elif self.default is not MISSING:
